@@ -1,10 +1,11 @@
 #!/bin/sh
 # tools/run_all.sh [quick|thorough] : run every registered check in turn, summary at the end
 T=${1:-quick}
-cd /verif
+cd "$(dirname "$0")/.."
+mkdir -p runlogs
 for i in 01 02 03 04 05 06 07 08 09 10 11 12 13 14 15 16 17 18 19 20; do
   s=$(date +%s)
-  ./check C$i $T > /tmp/runall_C$i.log 2>&1; rc=$?
+  ./check C$i $T > runlogs/${T}_C$i.log 2>&1; rc=$?
   e=$(date +%s)
-  echo "C$i exit=$rc wall=$((e-s))s $(grep -ac '^VIOLATION' /tmp/runall_C$i.log) violations $(grep -ac '^KNOWN-FINDING' /tmp/runall_C$i.log) known $(grep -ac '^INCONCLUSIVE' /tmp/runall_C$i.log) inconclusive"
+  echo "C$i exit=$rc wall=$((e-s))s $(grep -ac '^VIOLATION' runlogs/${T}_C$i.log) violations $(grep -ac '^KNOWN-FINDING' runlogs/${T}_C$i.log) known $(grep -ac '^INCONCLUSIVE' runlogs/${T}_C$i.log) inconclusive"
 done
